@@ -148,13 +148,23 @@ def dtor_info(f, rel):
             return None
         X = X2
 
+    # other names for the argument: `T * k = (void *)arg;`
+    names = {X}
+    for e in f.all_elems():
+        if e.cls == "DeclStmt":
+            for d in e.decls or []:
+                if isinstance(d, dict) and d.get("init") and norm(f.elem(d["init"])) in names:
+                    names.add(("v", d["name"], d["id"]))
+        elif e.is_assign and e.op == "=" and norm(e.kid(0))[0] == "v" and norm(e.kid(1)) in names:
+            names.add(norm(e.kid(0)))
+
     def tr(st, e):
         if e.cls == "CallExpr" and e.callee and (e.callee in rel or own.GENERIC_RELEASERS.search(e.callee)):
             for a in e.args:
                 if a is None:
                     continue
                 n = norm(a)
-                if n == X:
+                if n in names:
                     st = st | frozenset(["self"])
                 elif n[0] == "." and n[1] == ("*", X):
                     st = st | frozenset([n[2]])
